@@ -26,7 +26,7 @@ Your task: produce ONE realistic change to the non-test source code of the repos
   (c0) never use `git stash` (the stash is shared between worktrees; use `git diff > p.diff; git apply -R p.diff` instead), and
   (c) the breakage needs something specific to manifest: an unusual input, a boundary value, a particular shape/combination, a multi-step sequence, a particular interleaving or fault. It must NOT be something ordinary use or the existing tests expose at once. Prefer subtle over blatant. Do not edit, delete or weaken any existing test, and do not change test data.
 
-Also write a demonstration: a NEW Go test file (give it a name starting with zz_demo_ and ending in _test.go, placed in the package it needs) that FAILS with your change applied and PASSES on the unchanged tree. Verify both directions yourself (use git stash or apply/revert your patch).
+Also write a demonstration: a NEW Go test file (give it a name starting with zz_demo_ and ending in _test.go, placed in the package it needs) that FAILS with your change applied and PASSES on the unchanged tree. Verify both directions yourself (save the patch with `git diff > p.diff`, revert with `git apply -R p.diff`, re-apply with `git apply p.diff`; never `git stash`).
 
 Deliver, in the directory {wt}/OUT (create it):
   - patch.diff   : output of `git diff` for the source change ONLY (not the demo test, not OUT); it must apply with `git apply` at the repository root of an unchanged tree
